@@ -47,6 +47,16 @@ class AbsSet(object):
             return SBool(_allowed(z3.IntVal(p)))
         return False
 
+    def _meet(self, other):
+        # intersection with a finite set display: the elements of `other` that are allowed (decided per path)
+        from pyvc.engine import engine
+        from pyvc.values import SymSet
+        elems = list(other.elems) if isinstance(other, SymSet) else list(other)
+        keep = [e for e in elems if engine().decide(self.__contains__(e).t)]
+        return SymSet(keep) if any(isinstance(e, SInt) for e in keep) else set(keep)
+
+    __and__ = __rand__ = __iand__ = _meet
+
 
 def bare_connection(I, **attrs):
     I.override(threading.RLock, lambda I_: GhostLock(), kind='assumed')
@@ -244,6 +254,25 @@ class Negotiate(Unit):
 def replay_negotiate(proto):
     sup = minecraft.SUPPORTED_PROTOCOL_VERSIONS
     for allowed in ({757}, {47, 340, 757}, set(sup)):
+        # no version information / server closes: the configured default is used, whether or not it is in the allowed set
+        for default in (340, 404, 47):
+            for how in ('no-version', 'no-protocol', 'eof'):
+                conn = object.__new__(Connection)
+                conn.allowed_proto_versions = set(allowed)
+                conn.default_proto_version = default
+                ev = []
+                conn.connect = lambda: ev.append(set(conn.allowed_proto_versions))
+                conn.disconnect = lambda immediate=False: None
+                r = object.__new__(PlayingStatusReactor)
+                r.connection = conn
+                if how == 'eof':
+                    k, v = native_call(r.handle_exception, EOFError('closed'), None)
+                else:
+                    k, v = native_call(r.handle_status, {'description': 'x'} if how == 'no-version' else {'version': {'name': 'N'}})
+                if k != 'ok' or ev != [{default}]:
+                    return dict(confirmed=True, call='status reply without a protocol number (%s), allowed=%r, default=%d'
+                                % (how, sorted(allowed)[:4], default),
+                                observed='%s %r; reconnects with %r instead of [{%d}]' % (k, v, ev, default))
         conn = object.__new__(Connection)
         conn.allowed_proto_versions = set(allowed)
         conn.default_proto_version = 340
